@@ -80,11 +80,8 @@ class C20(Property):
         return None
 
     def project(self, line):
-        # C20 is about the finished tree and memory; sharing is C04's business
-        if " || share " in line:
-            head, rest = line.split(" || share ", 1)
-            tail = rest.split(" || ", 1)
-            return head + " || share -" + (" || " + tail[1] if len(tail) > 1 else "")
+        # the finished trees, memory, and what the cache shares: after a caught failure the cache must behave as if the
+        # token had never been offered — what was cached before the fault is still shared afterwards
         return line
 
     def nontrivial(self, case, impl):
